@@ -19,7 +19,7 @@ Proof.
     specialize (IH g q' m' res' r H Hn').
     destruct m as [| |n a|n a]; cbn [pending].
     + (* UNorm *)
-      unfold uq_step in E.
+      unfold uq_step in E. destruct (c =? 0); [discriminate|].
       destruct (is_quote_char c && at_item_start res && (negb g || match q with Some _ => false | None => true end)) eqn:Eq.
       * injection E as <- <- <-. apply VSLit; [|exact Hc|exact IH].
         apply andb_true_iff in Eq. destruct Eq as [Eq _]. apply andb_true_iff in Eq. destruct Eq as [Eq _].
